@@ -17,7 +17,7 @@ use crate::tamper::{self, HashTamper, ListOp};
 fn make<C: GenericConfig<D, F = F>>(seed: u64, case: u64) -> Result<Proven<C>, String> {
     let bset = gen::boundary_set();
     let mut rng = crate::mon::case_rng(seed, 16_001, case);
-    let opts = GenOpts { n_ops: if rng.gen_bool(0.5) { rng.gen_range(1..40) } else { rng.gen_range(40..260) }, lookups: case % 4 == 1, hashing: case % 5 == 0, extension: true, max_table_len: 30 };
+    let opts = GenOpts { n_ops: if rng.gen_bool(0.5) { rng.gen_range(1..40) } else { rng.gen_range(40..260) }, lookups: case % 4 == 1, hashing: case % 5 == 0, extension: true, max_table_len: 30, only_base2: false };
     let (prog, inputs) = circ::gen_program(&mut rng, &bset, &opts);
     let mut config = circ::fast_config();
     // small LDE domains + many queries force repeated indices and shared cosets
